@@ -40,10 +40,14 @@ impl MemoryPool for UnboundedMemoryPool {
     }
 
     fn grow(&self, _reservation: &MemoryReservation, additional: usize) {
+        #[cfg(datafusion_verif)]
+        datafusion_common::verif::sync_point("pool:43");
         self.used.fetch_add(additional, Ordering::Relaxed);
     }
 
     fn shrink(&self, _reservation: &MemoryReservation, shrink: usize) {
+        #[cfg(datafusion_verif)]
+        datafusion_common::verif::sync_point("pool:47");
         self.used.fetch_sub(shrink, Ordering::Relaxed);
     }
 
@@ -53,6 +57,8 @@ impl MemoryPool for UnboundedMemoryPool {
     }
 
     fn reserved(&self) -> usize {
+        #[cfg(datafusion_verif)]
+        datafusion_common::verif::sync_point("pool:56");
         self.used.load(Ordering::Relaxed)
     }
 
@@ -96,14 +102,20 @@ impl MemoryPool for GreedyMemoryPool {
     }
 
     fn grow(&self, _reservation: &MemoryReservation, additional: usize) {
+        #[cfg(datafusion_verif)]
+        datafusion_common::verif::sync_point("pool:99");
         self.used.fetch_add(additional, Ordering::Relaxed);
     }
 
     fn shrink(&self, _reservation: &MemoryReservation, shrink: usize) {
+        #[cfg(datafusion_verif)]
+        datafusion_common::verif::sync_point("pool:103");
         self.used.fetch_sub(shrink, Ordering::Relaxed);
     }
 
     fn try_grow(&self, reservation: &MemoryReservation, additional: usize) -> Result<()> {
+        #[cfg(datafusion_verif)]
+        datafusion_common::verif::sync_point("pool:107");
         self.used
             .fetch_update(Ordering::Relaxed, Ordering::Relaxed, |used| {
                 let new_used = used + additional;
@@ -121,6 +133,8 @@ impl MemoryPool for GreedyMemoryPool {
     }
 
     fn reserved(&self) -> usize {
+        #[cfg(datafusion_verif)]
+        datafusion_common::verif::sync_point("pool:124");
         self.used.load(Ordering::Relaxed)
     }
 
@@ -329,24 +343,34 @@ struct TrackedConsumer {
 impl TrackedConsumer {
     /// Shorthand to return the currently reserved value
     fn reserved(&self) -> usize {
+        #[cfg(datafusion_verif)]
+        datafusion_common::verif::sync_point("pool:332");
         self.reserved.load(Ordering::Relaxed)
     }
 
     /// Return the peak value
     fn peak(&self) -> usize {
+        #[cfg(datafusion_verif)]
+        datafusion_common::verif::sync_point("pool:337");
         self.peak.load(Ordering::Relaxed)
     }
 
     /// Grows the tracked consumer's reserved size,
     /// should be called after the pool has successfully performed the grow().
     fn grow(&self, additional: usize) {
+        #[cfg(datafusion_verif)]
+        datafusion_common::verif::sync_point("pool:343");
         self.reserved.fetch_add(additional, Ordering::Relaxed);
+        #[cfg(datafusion_verif)]
+        datafusion_common::verif::sync_point("pool:344");
         self.peak.fetch_max(self.reserved(), Ordering::Relaxed);
     }
 
     /// Reduce the tracked consumer's reserved size,
     /// should be called after the pool has successfully performed the shrink().
     fn shrink(&self, shrink: usize) {
+        #[cfg(datafusion_verif)]
+        datafusion_common::verif::sync_point("pool:350");
         self.reserved.fetch_sub(shrink, Ordering::Relaxed);
     }
 }
